@@ -40,7 +40,7 @@ EXPLANATION = (
 )
 NOT_DECIDED = (
     "the if-and-only-if over the token encoding space (that XOR masking and hex are bijections is trusted, only their pairing is checked); subclasses overriding "
-    "check_xsrf_cookie (ErrorHandler does, by design) or _execute; that self.request.method does not change during _execute; cookie attributes"
+    "check_xsrf_cookie (ErrorHandler does, by design) or _execute; that self.request.method does not change during _execute; cookie attributes; delivery of body chunks to data_received of a stream_request_body handler after a failed check (the exception path settles _prepared_future by design)"
 )
 LEVEL_NOTE = "Structural necessary conditions only. Trusted: hmac.compare_digest, binascii, get_argument raises at most HTTPError(400), header/cookie accessors and logging do not raise."
 
@@ -79,7 +79,10 @@ def check_gate(ck, ex):
     cfg = ex.cfg
     supported = ck.repo.class_attr(W, RH, "SUPPORTED_METHODS")
     try:
-        universe = frozenset(q.fold(supported, {})) | frozenset(EXTRA_METHODS)
+        declared = frozenset(q.fold(supported, {}))
+        universe = declared | frozenset(EXTRA_METHODS)
+        # a subclass may extend SUPPORTED_METHODS by further (upper-case) method tokens; other spellings stay unsupported
+        supported_env = tuple(sorted(declared | {m for m in EXTRA_METHODS if m.isupper()}))
     except q.NotFoldable:
         raise AnalysisError("RequestHandler.SUPPORTED_METHODS is not a literal")
     ck.need(len(universe - SAFE_METHODS) >= 4, "method universe too small")
@@ -98,6 +101,12 @@ def check_gate(ck, ex):
             governed.append((n, "self.prepare()"))
         if node_has_call(n, lambda x, n=n: is_handler_call(n, x)):
             governed.append((n, "the handler method (getattr(self, method.lower()))"))
+    from ..rules import settle_sites
+
+    pm = q.parent_map(ex.node)
+    for n, c, path, _kind in settle_sites(ex, "self._prepared_future"):
+        if not any(isinstance(a, ast.ExceptHandler) for a in q.ancestors(pm, c)):
+            governed.append((n, "release of the request body to the handler (self._prepared_future settled on the normal path)"))
     ck.floor("C24.gate", len([g for g in governed if "prepare" in g[1]]), 1, "prepare() call sites in _execute")
     ck.floor("C24.gate", len([g for g in governed if "handler" in g[1]]), 1, "handler method call sites in _execute")
     checks = [n for n in cfg.stmt_nodes() if node_has_call(n, lambda x: is_self_call(x, "check_xsrf_cookie", 0))]
@@ -119,6 +128,19 @@ def check_gate(ck, ex):
 
         return T().visit(e)
 
+    def case_folded(e):
+        """``self.request.method.lower()/.upper()`` -> pseudo variables so the predicate stays evaluable."""
+        import copy
+
+        class T(ast.NodeTransformer):
+            def visit_Call(self, node):
+                self.generic_visit(node)
+                if isinstance(node.func, ast.Attribute) and node.func.attr in ("lower", "upper") and not node.args and q.dotted(node.func.value) == "self.request.method":
+                    return ast.Name(id="__m_" + node.func.attr, ctx=ast.Load())
+                return node
+
+        return T().visit(copy.deepcopy(e))
+
     def transfer(n, val):
         checked, methods, setting = val
         if n.id in check_ids:
@@ -135,9 +157,10 @@ def check_gate(ck, ex):
                 raise AnalysisError("_execute: test of the xsrf_cookies setting in an unknown shape: %s" % q.unparse(e)[:80])
             elif "self.request.method" in q.unparse(e):
                 keep = set()
+                e = case_folded(e)
                 for m in methods:
                     try:
-                        v = bool(q.fold(e, {"self.request.method": m, "self.SUPPORTED_METHODS": tuple(universe)}))
+                        v = bool(q.fold(e, {"self.request.method": m, "__m_lower": m.lower(), "__m_upper": m.upper(), "self.SUPPORTED_METHODS": supported_env}))
                     except q.NotFoldable as exn:
                         raise AnalysisError("_execute: branch on the request method cannot be evaluated statically: %s (%s)" % (q.unparse(e)[:80], exn))
                     if v == (kind == "true"):
@@ -409,7 +432,12 @@ def decoder_tables(ck, dec, pos):
                         ver = b.value
         tok = t.elts[p]
         E = rd.expand(tok, nd)
-        out.append(dict(ver=ver, node=nd, tok=E, tok_raw=tok, ts=rd.expand(t.elts[-1], nd), version_el=rd.expand(t.elts[0], nd), rd=rd))
+        unversioned = False
+        for Ef, pol, text in [(rd.expand(e, nd), pol, text) for e, pol, text in parsed_facts(facts[nd.id])]:
+            is_match = lambda x: isinstance(x, ast.Call) and isinstance(x.func, ast.Attribute) and x.func.attr in ("match", "fullmatch", "search")
+            if (is_match(Ef) and not pol) or (isinstance(Ef, ast.Compare) and len(Ef.ops) == 1 and isinstance(Ef.ops[0], ast.Is) and is_match(Ef.left) and pol):
+                unversioned = True
+        out.append(dict(ver=ver, node=nd, unversioned=unversioned, tok=E, tok_raw=tok, ts=rd.expand(t.elts[-1], nd), version_el=rd.expand(t.elts[0], nd), rd=rd))
     return out
 
 
@@ -462,23 +490,29 @@ def check_tables(ck, iss, dec, it, dt):
             ft = split_field(ts.args[0]) if isinstance(ts, ast.Call) and q.call_attr(ts) == "int" and ts.args else None
             ck.ob("C24.codec", dec, nd.ast, ft is not None and ft[0] == epos.get("ts"), "timestamp read from the field the issuer writes it to (%s)" % epos.get("ts"), construct="timestamp position")
         else:
-            # plain format: hex of the whole cookie, or (fallback) the text itself
+            # plain format: hex of the whole cookie, or (fallback) the text itself - only on the path without a version prefix
             enc = [t for t in it.values() if t["kind"] == "hex"]
             ck.need(len(enc) == 1, "xsrf_token: expected exactly one plain hex format")
             rd = d["rd"]
             name = d["tok_raw"]
-            ck.need(isinstance(name, ast.Name), "_decode_xsrf_token: plain token is not a local")
+            cands = []
+            if isinstance(name, ast.Name) and rd.defs_at(nd, name.id):
+                cands = [(df.value, df.kind) for df in rd.defs_at(nd, name.id)]
+            else:
+                cands = [(name, "expr")]
             kinds = []
-            for df in rd.defs_at(nd, name.id):
-                v = df.value
+            for v, kd in cands:
                 h = hexcall(v, HEX_INV.values()) if v is not None else None
                 if h and isinstance(strip_wrappers(h[0]), ast.Name) and strip_wrappers(h[0]).id == param and HEX_INV.get(enc[0]["codec"]) == h[1]:
                     kinds.append("hex")
                 elif v is not None and isinstance(strip_wrappers(v), ast.Name) and strip_wrappers(v).id == param:
                     kinds.append("verbatim")
                 else:
-                    kinds.append("other:" + (q.unparse(v)[:40] if v is not None else df.kind))
-            ck.ob("C24.codec", dec, nd.ast, "hex" in kinds and all(k in ("hex", "verbatim") for k in kinds), "version-1 token = inverse hex codec of the whole cookie text (or the text itself when it is not hex); definitions %s" % sorted(set(kinds)), construct="plain codec")
+                    kinds.append("other:" + (q.unparse(v)[:40] if v is not None else kd))
+            ck.ob("C24.codec", dec, nd.ast, "hex" in kinds and all(k in ("hex", "verbatim") for k in kinds),
+                  "a token returned without the masked format is the inverse hex codec of the whole cookie text (or the text itself when it is not hex); definitions %s" % sorted(set(kinds)), construct="plain codec")
+            ck.ob("C24.codec", dec, nd.ast, d["unversioned"], "the plain (version 1) decoding is used only on the path where the text carries no version prefix - never as a fallback for a malformed versioned token",
+                  construct="plain decoding path")
 
 
 def check_cookie_set(ck, iss, cookie_name_expr):
@@ -619,6 +653,9 @@ MUTANTS = [
     ("decoder: except Exception narrowed (explicit raise escapes)", _in("_decode_xsrf_token", _narrow_handler), "C24.decode-total"),
     ("decoder: handler misses the mask routine's IndexError/ValueError", _in("_decode_xsrf_token", _narrow_handler_index), "C24.decode-total"),
     ("tokens compared on a prefix", _in("check_xsrf_cookie", replace_expr(lambda n: isinstance(n, ast.Call) and q.call_attr(n) == "compare_digest", lambda n: ast.Call(func=n.func, args=[ast.Subscript(value=a, slice=ast.Slice(upper=ast.Constant(value=8)), ctx=ast.Load()) for a in n.args], keywords=[]))), "C24.check-accept"),
+    ("seeded C24-adv1: 'if not token' became 'if token is None' (empty secret matches empty-secret cookie)", _in("check_xsrf_cookie", replace_expr(lambda n: isinstance(n, ast.UnaryOp) and isinstance(n.op, ast.Not) and ast.unparse(n.operand) == "token", lambda n: parse_expr("token is None"))), "C24.check-accept"),
+    ("method test on the lower-cased method with upper-case literals for one verb", _in("_execute", replace_expr(lambda n: isinstance(n, ast.Compare) and _is_safe_tuple(n.comparators[0]), lambda n: parse_expr("self.request.method.lower() not in ('get', 'head', 'options', 'put')"))), "C24.gate"),
+    ("body released to the handler before the XSRF check", _in("_execute", lambda root: _release_before_check(root)), "C24.gate"),
     ("empty decoded token accepted", _in("check_xsrf_cookie", remove_stmts(lambda st: isinstance(st, ast.If) and ast.unparse(st.test) == "not token")), "C24.check-accept"),
     ("comparison result inverted on one path", _in("check_xsrf_cookie", replace_expr(lambda n: isinstance(n, ast.UnaryOp) and isinstance(n.op, ast.Not) and "compare_digest" in ast.unparse(n), lambda n: ast.BoolOp(op=ast.And(), values=[n, parse_expr("len(token) > 8")]))), "C24.check-accept"),
     ("token also read from the cookie itself", _in("check_xsrf_cookie", replace_expr(lambda n: isinstance(n, ast.BoolOp) and "get_argument" in ast.unparse(n), lambda n: ast.BoolOp(op=ast.Or(), values=n.values + [parse_expr("self.get_cookie('_xsrf')")]))), "C24.token-source"),
@@ -627,6 +664,20 @@ MUTANTS = [
     ("mismatch answered with 400", _in("check_xsrf_cookie", replace_expr(lambda n: isinstance(n, ast.Constant) and n.value == 403, lambda n: ast.Constant(value=400), limit=3)), "C24.only-403"),
     ("decoder swaps mask and masked token", _in("_decode_xsrf_token", replace_stmt(lambda st: isinstance(st, ast.Assign) and isinstance(st.targets[0], ast.Tuple) and "split" in ast.unparse(st), lambda st: [parse_stmt("_, masked_token, mask_str, timestamp_str = cookie.split('|')")])), "C24.codec"),
     ("issuer writes a 2-byte mask", _in("xsrf_token", replace_expr(lambda n: isinstance(n, ast.Call) and q.dotted(n.func) == "os.urandom", lambda n: parse_expr("os.urandom(2)"))), "C24.codec"),
+    ("malformed token falls back to its raw text", _in("_decode_xsrf_token", replace_stmt(lambda st: isinstance(st, ast.Return) and ast.unparse(st.value) == "(None, None, None)", lambda st: [parse_stmt("return None, utf8(cookie), None")])), "C24.codec"),
+    ("empty v2 token replaced by the mask", _in("_decode_xsrf_token", replace_stmt(lambda st: isinstance(st, ast.Return) and ast.unparse(st.value) == "(version, token, timestamp)", lambda st: [parse_stmt("return version, token or mask, timestamp")], limit=1)), "C24.codec"),
     ("fresh token not sent as cookie for anonymous users", _in("xsrf_token", replace_expr(lambda n: isinstance(n, ast.Compare) and ast.unparse(n) == "version is None", lambda n: parse_expr("version is None and self.current_user"), limit=1)), "C24.cookie-set"),
     ("raw token: decoded cookie read from the version slot", _in("_get_raw_xsrf_token", replace_stmt(lambda st: isinstance(st, ast.Assign) and "_decode_xsrf_token" in ast.unparse(st), lambda st: [parse_stmt("token, version, timestamp = self._decode_xsrf_token(cookie)")])), "C24.token-position"),
 ]
+
+
+def _release_before_check(root):
+    for node in ast.walk(root):
+        body = getattr(node, "body", None)
+        if isinstance(body, list):
+            ci = next((i for i, st in enumerate(body) if isinstance(st, ast.If) and "check_xsrf_cookie" in ast.unparse(st)), None)
+            ri = next((i for i, st in enumerate(body) if isinstance(st, ast.If) and "future_set_result_unless_cancelled" in ast.unparse(st)), None)
+            if ci is not None and ri is not None and ci < ri:
+                body.insert(ci, body.pop(ri))
+                return True
+    return False
